@@ -187,30 +187,28 @@ def run_property(prop_id, tier, seed, workers=None, replay=None, only=None):
     tasks = [(prop_id, i, k, p) for i, (k, p) in enumerate(case_list)]
     done = 0
     last_print = time.time()
-    if nworkers == 1:
-        if hasattr(mod, "worker_init"):
-            mod.worker_init()
-        it = map(_run_one, tasks)
-        pool = None
-    else:
-        import multiprocessing as mp
+    import multiprocessing as mp
 
-        ctx = mp.get_context("fork")
-        nthreads = max(1, (os.cpu_count() or 16) // nworkers)
-        pool = ctx.Pool(nworkers, initializer=_worker_init, initargs=(prop_id, nthreads))
-        it = pool.imap_unordered(_run_one, tasks, chunksize=1)
-    try:
-        for idx, r, dt in it:
-            done += 1
-            if "error" in r:
-                errors.append((idx, r["error"]))
-            else:
-                results[idx] = r
-            if time.time() - last_print > 30:
-                last_print = time.time()
-                print("[%s] %d/%d cases, %.0fs" % (prop_id, done, n_cases, time.time() - t_start), flush=True)
-    finally:
-        if pool is not None:
+    ctx = mp.get_context("fork")
+    nthreads = max(1, (os.cpu_count() or 16) // nworkers)
+    # cases of the kinds in FRESH_KINDS run one per newly forked worker: the only history such a case has is the one it states
+    fresh_kinds = set(getattr(mod, "FRESH_KINDS", ()))
+    batches = [([t for t in tasks if t[2] not in fresh_kinds], None), ([t for t in tasks if t[2] in fresh_kinds], 1)]
+    for batch, per_child in batches:
+        if not batch:
+            continue
+        pool = ctx.Pool(min(nworkers, len(batch)), initializer=_worker_init, initargs=(prop_id, nthreads), maxtasksperchild=per_child)
+        try:
+            for idx, r, dt in pool.imap_unordered(_run_one, batch, chunksize=1):
+                done += 1
+                if "error" in r:
+                    errors.append((idx, r["error"]))
+                else:
+                    results[idx] = r
+                if time.time() - last_print > 30:
+                    last_print = time.time()
+                    print("[%s] %d/%d cases, %.0fs" % (prop_id, done, n_cases, time.time() - t_start), flush=True)
+        finally:
             pool.close()
             pool.join()
 
@@ -284,15 +282,35 @@ def run_property(prop_id, tier, seed, workers=None, replay=None, only=None):
     reported = 0
     for n, key in enumerate(sorted(new_keys)):
         v = by_key[key][0]
-        if v["case"] is not None and v["case"][0] in mod.KINDS:
-            again = _rerun_keys(mod, v["case"])
-            if again is not None and key not in again:
+        # confirm by re-executing the recorded case in a fresh process (no earlier cases in its history); several
+        # candidate cases are tried, the first one that reproduces becomes the replay artefact
+        cands, seen_c = [], set()
+        for cv in by_key[key]:
+            if cv["case"] is not None and cv["case"][0] in mod.KINDS:
+                cj = json.dumps(_jsonable(cv["case"]), sort_keys=True)
+                if cj not in seen_c:
+                    seen_c.add(cj)
+                    cands.append(cv)
+            if len(cands) >= 3:
+                break
+        if cands and n < 8:  # the verdict is settled by the first confirmed keys; further keys are filed as found
+            confirmed, last = None, None
+            for cv in cands:
+                again = _rerun_keys(mod, cv["case"], prop_id)
+                if again is None or key in again:
+                    confirmed = cv
+                    break
+                last = again
+            if confirmed is not None:
+                v = confirmed
+            else:
+                v = cands[0]
                 if getattr(mod, "NONDETERMINISM_IS_VIOLATION", False):
-                    # the property itself demands schedule independence: a result that changes between
-                    # two executions of the same case is a violation, reported as such
-                    v["what"] = "[result differs between two executions of the same case: depends on scheduling] " + v["what"]
+                    # the property itself demands independence from scheduling / from what ran earlier in the process:
+                    # a result that changes between two executions of the same case is a violation, reported as such
+                    v["what"] = "[result differs between two executions of the same case: it depends on scheduling or on what ran earlier in the process] " + v["what"]
                 else:
-                    print("HARNESS-ERROR: violation %s did not reproduce on re-execution (got %s)" % (key, sorted(again)[:5]), flush=True)
+                    print("HARNESS-ERROR: violation %s did not reproduce on re-execution (got %s)" % (key, sorted(last)[:5]), flush=True)
                     return 2
         path = os.path.join(REPLAY_DIR, prop_id, "%03d.json" % n)
         with open(path, "w") as fh:
@@ -333,29 +351,40 @@ def run_property(prop_id, tier, seed, workers=None, replay=None, only=None):
     return rc
 
 
-_PARENT_INIT = False
-
-
-def _rerun_keys(mod, case):
-    global _PARENT_INIT
+def _rerun_child(args):
+    prop_id, case = args
+    mod = _load_mod(prop_id)
     kind, params = case
     try:
-        if not _PARENT_INIT and hasattr(mod, "worker_init"):
-            mod.worker_init()
-        _PARENT_INIT = True
         r = mod.KINDS[kind](params)
     except Exception:
-        traceback.print_exc()
+        return {"error": traceback.format_exc()}
+    return {"keys": sorted({v["key"] for v in r["viol"]})}
+
+
+def _rerun_keys(mod, case, prop_id=None):
+    """re-execute one case in a freshly forked process: its only history is the case itself"""
+    import multiprocessing as mp
+
+    prop_id = prop_id or mod.ID
+    ctx = mp.get_context("fork")
+    nthreads = max(1, (os.cpu_count() or 16) // 4)
+    pool = ctx.Pool(1, initializer=_worker_init, initargs=(prop_id, nthreads), maxtasksperchild=1)
+    try:
+        out = pool.apply(_rerun_child, ((prop_id, _jsonable(case)),))
+    finally:
+        pool.close()
+        pool.join()
+    if "error" in out:
+        print(out["error"], flush=True)
         return None
-    return {v["key"] for v in r["viol"]}
+    return set(out["keys"])
 
 
 def _replay(mod, path):
     with open(path) as fh:
         rep = json.load(fh)
     kind, params = rep["case"]
-    if hasattr(mod, "worker_init"):
-        mod.worker_init()
     print("replaying %s case kind=%s params=%s" % (mod.ID, kind, json.dumps(params)[:500]))
     keys1 = _rerun_keys(mod, (kind, params))
     keys2 = _rerun_keys(mod, (kind, params))
@@ -365,6 +394,8 @@ def _replay(mod, path):
     if keys1 != keys2:
         print("HARNESS-ERROR: replay is not deterministic: %s vs %s" % (sorted(keys1), sorted(keys2)))
         return 2
+    if hasattr(mod, "worker_init"):  # only now: the two re-executions above were forked from a process that had run nothing
+        mod.worker_init()
     r = mod.KINDS[kind](params)
     for v in r["viol"]:
         print("  key=%s :: %s" % (v["key"], v["what"]))
